@@ -603,7 +603,109 @@ def gen_dag(tier):
         yield f"dag/seed{sd}", make(sd)
 
 
+def _if_using(g, cond, captured, shape, dtype=F, then_op="Relu", else_op="Neg"):
+    """If node whose two branches consume the OUTER value `captured` (no branch inputs in ONNX)"""
+    tg = helper.make_graph([helper.make_node(then_op, [captured], ["tb"])], "then", [], [helper.make_tensor_value_info("tb", dtype, list(shape))])
+    eg = helper.make_graph([helper.make_node(else_op, [captured], ["eb"])], "else", [], [helper.make_tensor_value_info("eb", dtype, list(shape))])
+    return g.node("If", [cond], then_branch=tg, else_branch=eg)
+
+
+def gen_captured(tier):
+    """values that a control-flow body captures from the enclosing graph: the optimizer sees no
+    consumer node for them in the top graph, yet they must survive every rewrite unchanged"""
+    perms = [(0, 2, 1), (1, 2, 0), (2, 0, 1)]
+    for p1 in perms:
+        shp_t = tuple(DIMS3[i] for i in p1)
+        for variant in ("t_only_in_if", "t_chain_t_mid_in_if", "t_chain_t_t1_in_if", "t_reduce_t_red_in_if", "t_in_if_and_out"):
+            def build(p1=p1, shp_t=shp_t, variant=variant):
+                g = GB()
+                x = g.inp("x", F, DIMS3)
+                c = g.inp("c", TP.BOOL, ())
+                t1 = g.node("Transpose", [x], perm=list(p1))
+                if variant == "t_only_in_if":
+                    g.out(_if_using(g, c, t1, shp_t))
+                elif variant == "t_in_if_and_out":
+                    g.out(_if_using(g, c, t1, shp_t))
+                    g.out(g.node("Abs", [x]))
+                elif variant == "t_chain_t_mid_in_if":
+                    r = g.node("Relu", [t1])
+                    g.out(g.node("Transpose", [r], perm=inv_perm(p1)))
+                    g.out(_if_using(g, c, r, shp_t))
+                elif variant == "t_chain_t_t1_in_if":
+                    r = g.node("Relu", [t1])
+                    g.out(g.node("Transpose", [r], perm=inv_perm(p1)))
+                    g.out(_if_using(g, c, t1, shp_t))
+                else:
+                    r = g.node("ReduceMean", [t1, g.const(np.array([1], dtype=np.int64))], keepdims=1)
+                    g.out(g.node("Transpose", [r], perm=inv_perm(p1)))
+                    rs = tuple(1 if i == 1 else d for i, d in enumerate(shp_t))
+                    g.out(_if_using(g, c, r, rs))
+                return g.build()
+
+            yield f"captured/p{''.join(map(str, p1))}/{variant}", build
+    for s1, s2 in (((6, 4), DIMS3), ((24,), DIMS3), ((4, 6), (2, 12))):
+        for variant in ("mid_in_if", "mid_in_if_only"):
+            def build(s1=s1, s2=s2, variant=variant):
+                g = GB()
+                x = g.inp("x", F, DIMS3 if int(np.prod(s2)) == 24 else s2)
+                c = g.inp("c", TP.BOOL, ())
+                r1 = g.node("Reshape", [x, g.const(np.array(s1, dtype=np.int64))])
+                r2 = g.node("Reshape", [r1, g.const(np.array(s2, dtype=np.int64))])
+                if variant == "mid_in_if":
+                    g.out(g.node("Neg", [r2]))
+                g.out(_if_using(g, c, r1, s1))
+                if variant == "mid_in_if_only":
+                    g.out(g.node("Abs", [r2]))
+                return g.build()
+
+            yield f"captured/reshape/{'x'.join(map(str, s1))}/{variant}", build
+    for a, b in (("f32", "f16"), ("i32", "i8"), ("f32", "f32")):
+        def build(a=a, b=b):
+            g = GB()
+            x = g.inp("x", CAST_TYPES[a], (3,))
+            c = g.inp("c", TP.BOOL, ())
+            c1 = g.node("Cast", [x], to=CAST_TYPES[b])
+            g.out(g.node("Cast", [c1], to=CAST_TYPES[a]))
+            g.out(_if_using(g, c, c1, (3,), dtype=CAST_TYPES[b], then_op="Identity", else_op="Identity"))
+            return g.build()
+
+        yield f"captured/cast/{a}-{b}", build
+
+
+def gen_range_cast(tier):
+    """Range with constant bounds through a narrowing integer Cast round trip: the rewrite is allowed
+    exactly when every emitted value fits the intermediate type"""
+    narrow = {"i8": (TP.INT8, -128, 127), "u8": (TP.UINT8, 0, 255), "i16": (TP.INT16, -32768, 32767)}
+    cases = []
+    for nm, (tp, lo, hi) in narrow.items():
+        for delta in (1, 2, 7, 100):
+            for end in (hi - 1, hi, hi + 1, hi + delta, hi + 3 * delta):
+                cases.append((nm, max(lo, 0), end + 1, delta))
+        for delta in (-1, -3, -50):
+            for end in (lo + 1, lo, lo - 1, lo + delta, lo + 3 * delta):
+                cases.append((nm, 5, end - 1, delta))
+        cases += [(nm, 0, 500, 7), (nm, 0, 5 * (hi + 1), hi), (nm, lo - 2, lo + 3, 1)]
+    seen = set()
+    for nm, start, limit, delta in cases:
+        if (nm, start, limit, delta) in seen or abs((limit - start) // delta) > 4000 or (limit - start) * delta <= 0:
+            continue
+        seen.add((nm, start, limit, delta))
+        for wrap in ("plain", "reshape"):
+            def build(nm=nm, start=start, limit=limit, delta=delta, wrap=wrap):
+                g = GB()
+                n = g.inp("n", TP.INT64, ())
+                x = g.node("Range", [g.const(np.array(start, dtype=np.int64)), g.const(np.array(limit, dtype=np.int64)), g.const(np.array(delta, dtype=np.int64))])
+                if wrap == "reshape":
+                    x = g.node("Reshape", [x, g.const(np.array([-1], dtype=np.int64))])
+                g.out(g.node("Add", [g.node("Cast", [g.node("Cast", [x], to=narrow[nm][0])], to=TP.INT64), n]))
+                return g.build()
+
+            yield f"range_cast/{nm}/s{start}_l{limit}_d{delta}/{wrap}", build
+
+
 FAMILIES = {
+    "captured": gen_captured,
+    "range_cast": gen_range_cast,
     "dag": gen_dag,
     "t_chain_t": gen_t_chain_t,
     "r_chain_r": gen_r_chain_r,
